@@ -272,6 +272,11 @@ def expset_specs():
     add('expset-sumexp', [se], [dict(e=cost, sense='le', rhs=0.0, set=0), budget], dict(kind='min', e=[['x', 1, 1.0]]))
     lg = [dict(t='log', z=0, c=[1.0, 1.0, 1.0], r=0.0), dict(t='hi', z=0, v=1.0)]
     add('expset-sumlog', [lg], [dict(e=cost, sense='le', rhs=0.0, set=0), budget], dict(kind='min', e=[['x', 1, 1.0]]))
+    # two constraints, the first on a KL ball, the second on the whole simplex (its own, larger set)
+    add('expset-kl-then-simplex', [kl, simplex],
+        [dict(e=cost, sense='le', rhs=0.0, set=0),
+         dict(e=[['xz', 0, 0, [[2.0, 0, 0], [0, 1.0, 0], [0, 0, 3.0]]], ['x', 1, -0.5]], sense='le', rhs=1.0, set=1), budget],
+        dict(kind='min', e=[['x', 1, 1.0]]))
     # KL set and a decision rule
     add('expset-kl-ldr', [kl], [dict(e=[['xz', 0, 0, [[1.0, 0, 0], [0, 2.0, 0], [0, 0, 4.0]]], ['y', 0, -1.0]],
                                      sense='le', rhs=0.0, set=0),
@@ -357,6 +362,17 @@ def core_specs():
         sets=[box([-1, -0.5], [1, 2]) + [dict(t='lo', z=0, v=-3.0), dict(t='hi', z=0, v=[4.0, 2.5])]], bounds=bx,
         rows=[dict(e=[['x', 0, [1, 2]], ['xz', 0, 0, [[1, 1], [0, -1]]]], sense='le', rhs=5)],
         obj=dict(kind='minmax', set=0, e=[['x', 0, [-1, -1]], ['z', 0, [1, 1]], ['xz', 0, 0, [[0.5, 0], [0, 0.5]]]]))
+    # 3a''. two constraints with DIFFERENT sets, the tighter set (budget / abs / inf-norm) attached first: the second row must
+    #      be protected on its own, larger set (every worst case binds in min t1 + t2)
+    I2 = [[1, 0], [0, 1]]
+    for tag, first in [('budget', [dict(t='norm', p=1, r=1)] + box(-1, 1)), ('abs', [dict(t='abs', r=[0.5, 0.25])]),
+                       ('inf', [dict(t='norm', p='inf', r=0.5)]), ('ball', [dict(t='norm', p=2, r=0.5)])]:
+        add('multi-set-%s-then-box' % tag, dv=[dict(shape=[2]), dict(shape=[]), dict(shape=[])], rv=[[2]],
+            sets=[first, box(-1, 1)],
+            bounds=[dict(x=0, lo=0.5, hi=2), dict(x=1, lo=-10, hi=10), dict(x=2, lo=-10, hi=10)],
+            rows=[dict(e=[['xz', 0, 0, I2], ['x', 1, -1.0]], sense='le', rhs=0, set=0),
+                  dict(e=[['xz', 0, 0, [[1, 0], [0, -2]]], ['x', 2, -1.0]], sense='le', rhs=0, set=1)],
+            obj=dict(kind='min', e=[['x', 1, 1.0], ['x', 2, 1.0], ['x', 0, [0.25, 0.25]]]))
     # 3b. strictly negative / strictly positive boxes (bound objects with ub < 0 and lb > 0)
     add('static-box-negative', dv=[dict(shape=[2])], rv=[[2]], sets=[box([-3, 0.5], [-1, 2])], bounds=bx,
         rows=[dict(e=[['x', 0, [1, 2]], ['xz', 0, 0, [[1, 1], [0, -1]]]], sense='le', rhs=9),
